@@ -34,7 +34,22 @@
 
    C08_tombstone_same_as_object / C08_deleted_any_form / C08_partial_deliveries /
    C08_relist_snapshot are proved; the full statement over deliveries is refuted by the
-   same two findings (C08_refuted_deliveries). *)
+   same two findings (C08_refuted_deliveries).
+
+   The start of a binding.  Objects that exist when the binding is enabled do not arrive as
+   deliveries first: resourceInformer.loadExistedObjects lists them directly ([load_existed],
+   no event: they are the Synchronization snapshot) and only then the shared informer is
+   started / joined (FactoryStore.Start) and re-delivers each of them through OnAdd
+   ([start_replay]).  The specification knows these objects from the list on ([P_start]).
+
+     C08_full_statement_start := forall jq types filter listed (h : list dstep), oracle_canonical .. ->
+         exists c0, load_existed jq cfg listed [] = Some c0 /\
+                    P_start jq types filter listed (map change_of h) (obs of run_d from c0 over h) = true.
+
+   C08_partial_start (outside the two findings, every listed set and every history),
+   C08_start_redelivery_silent (the replay of the listed objects fires nothing and leaves the
+   snapshot untouched, for EVERY binding; environment assumption: the objects the informer
+   delivers at its start are the objects the initial List returned) and C08_refuted_start. *)
 From Verif Require Import Common Json C08_Model C08_Spec C08_Proofs.
 
 Definition C08_full_statement : Prop :=
@@ -184,6 +199,95 @@ Proof.
   - cbn [map fst]. constructor; [intros [H|[]]; discriminate|].
     constructor; [intros []|constructor].
   - intros s Hs. vm_compute in Hs. destruct Hs as [H|[H|[]]]; subst s; vm_compute; discriminate.
+Qed.
+
+(* ---- the start of a binding: initial list (loadExistedObjects), then the shared
+   informer's replay of the existing objects (FactoryStore.Start) ---- *)
+
+Definition C08_full_statement_start : Prop :=
+  forall jq types filter listed (h : list dstep),
+    oracle_canonical jq (listed_steps listed ++ map change_of h) ->
+    exists c0, load_existed jq (mkConfig types filter) listed [] = Some c0 /\
+      P_start jq types filter listed (map change_of h)
+              (map to_obs (run_d jq (mkConfig types filter) c0 h)) = true.
+
+(* the property for every binding, every set of objects that exist when it is enabled and
+   every history of deliveries that follows (the informer's replay at its start first),
+   outside the two findings: the objects are known from the initial list on *)
+Theorem C08_partial_start : forall jq types filter listed (h : list dstep),
+  oracle_canonical jq (listed_steps listed ++ map change_of h) ->
+  T_F8 jq filter (listed_steps listed ++ map change_of h) = false ->
+  T_F16 jq filter (listed_steps listed ++ map change_of h) = false ->
+  exists c0, load_existed jq (mkConfig types filter) listed [] = Some c0 /\
+    P_start jq types filter listed (map change_of h)
+            (map to_obs (run_d jq (mkConfig types filter) c0 h)) = true.
+Proof. exact partial_start. Qed.
+Print Assumptions C08_partial_start.
+
+(* "Re-delivery of an unchanged object (informer start ...) triggers nothing", for all
+   bindings (any filter, also outside the findings' triggers, any event types) and all object
+   sets.  ENVIRONMENT ASSUMPTION [incl delivered listed]: every object the shared informer
+   hands to the handler at its start is, id and content, an object the binding's initial
+   List returned (nothing changed in the cluster in between and the informer delivers objects
+   as the List does); order and multiplicity are free.  Then no delivery of the replay fires,
+   every one leaves the cache as loadExistedObjects filled it, and that cache shows exactly
+   the listed objects.  The correspondence checks the assumption on every case that runs the
+   real shared informer: the delivered objects are observed and compared with the cluster's. *)
+Theorem C08_start_redelivery_silent : forall jq cfg listed delivered c0,
+  NoDup (map fst listed) ->
+  load_existed jq cfg listed [] = Some c0 ->
+  incl delivered listed ->
+  Forall (fun r : cache * option event => snd r = None /\ forall id, c_get id (fst r) = c_get id c0)
+         (run_d jq cfg c0 (start_replay delivered)) /\
+  store_agrees c0 listed.
+Proof. exact start_silent. Qed.
+Print Assumptions C08_start_redelivery_silent.
+
+(* the full statement at the start fails for the recorded reason F8 (object listed with
+   replicas=3, Modified to replicas=4 fires nothing) *)
+Theorem C08_refuted_start :
+  exists jq types filter listed (h : list dstep) c0,
+    oracle_canonical jq (listed_steps listed ++ map change_of h) /\
+    T_F8 jq filter (listed_steps listed ++ map change_of h) = true /\
+    T_F16 jq filter (listed_steps listed ++ map change_of h) = false /\
+    load_existed jq (mkConfig types filter) listed [] = Some c0 /\
+    P_start jq types filter listed (map change_of h)
+            (map to_obs (run_d jq (mkConfig types filter) c0 h)) = false.
+Proof. exact refuted_start. Qed.
+Print Assumptions C08_refuted_start.
+
+(* non-vacuity of the start theorems: two objects exist; the informer replays them in the
+   other order; then object 1 really changes.  No filter (whole-object projection) and the
+   `{r:.spec.replicas}`-like oracle alike: the replay is silent, the change fires; and the
+   specification REJECTS an observation in which the replay of the unchanged object 1 fires. *)
+Example C08_start_hyp_met :
+  let listed := [(1%N, o_rep 3); (2%N, o_norep)] in
+  let delivered := [(2%N, o_norep); (1%N, o_rep 3)] in
+  let h := start_replay delivered ++ [(Modified, 1%N, Plain (o_rep 4))] in
+  NoDup (map fst listed) /\ incl delivered listed /\
+  (forall filter, exists c0,
+     load_existed jq_obj (mkConfig all3 filter) listed [] = Some c0 /\
+     map (fun ie => (fst ie, e_obj (snd ie))) c0 = listed /\
+     map o_fired (map to_obs (run_d jq_obj (mkConfig all3 filter) c0 h)) = [[]; []; [Modified]] /\
+     P_start jq_obj all3 filter listed (map change_of h)
+             (map to_obs (run_d jq_obj (mkConfig all3 filter) c0 h)) = true) /\
+  T_F8 jq_obj true (listed_steps listed ++ map change_of h) = false /\
+  T_F16 jq_obj true (listed_steps listed ++ map change_of h) = false /\
+  (forall filter,
+     P_start jq_obj all3 filter listed (map change_of (start_replay delivered))
+             [mkObs [] listed; mkObs [Added] listed] = false /\
+     P_start jq_obj all3 filter listed (map change_of (start_replay delivered))
+             [mkObs [] listed; mkObs [] listed] = true).
+Proof.
+  cbv zeta. split; [|split; [|split; [|split; [|split]]]].
+  - cbn [map fst]. constructor; [intros [H|[]]; discriminate|].
+    constructor; [intros []|constructor].
+  - intros io [H|[H|[]]]; subst io; [right; left | left]; reflexivity.
+  - intros filter. destruct filter; eexists; (split; [vm_compute; reflexivity|]);
+      (split; [vm_compute; reflexivity|]); (split; vm_compute; reflexivity).
+  - vm_compute; reflexivity.
+  - vm_compute; reflexivity.
+  - intros filter; destruct filter; split; vm_compute; reflexivity.
 Qed.
 
 (* non-vacuity.  (1) C08_partial's hypotheses are met by a non-trivial history: filter
